@@ -244,6 +244,30 @@ pub fn execute(plan: &Plan, trace: bool) -> Exec {
                         Ok(e) => obs.lock().unwrap().writer_errors.push(("stopped()#2".into(), e)),
                         Err(_) => obs.lock().unwrap().notes.push("stopped()#2 pending".into()),
                     }
+                    // the code is not a one-shot notification: whatever the library did when it first
+                    // reported the stop, every later operation - at once and a few round trips
+                    // later - still reports it
+                    match tokio::time::timeout(Duration::from_secs(30), writer.write(b"y")).await {
+                        Ok(Ok(n)) => obs.lock().unwrap().writer_oks.push(format!("write-after-stopped()({n})")),
+                        Ok(Err(e)) => obs.lock().unwrap().writer_errors.push(("write-after-stopped()".into(), e)),
+                        Err(_) => obs.lock().unwrap().notes.push("write-after-stopped() blocked".into()),
+                    }
+                    net.quiesce(Duration::from_millis(30), Duration::from_secs(5)).await;
+                    tokio::time::sleep(Duration::from_millis(300)).await;
+                    match tokio::time::timeout(Duration::from_secs(30), writer.stopped()).await {
+                        Ok(e) => obs.lock().unwrap().writer_errors.push(("stopped()#3".into(), e)),
+                        Err(_) => obs.lock().unwrap().notes.push("stopped()#3 pending".into()),
+                    }
+                    match tokio::time::timeout(Duration::from_secs(30), writer.finish()).await {
+                        Ok(Ok(())) => obs.lock().unwrap().writer_oks.push("finish#2".into()),
+                        Ok(Err(e)) => obs.lock().unwrap().writer_errors.push(("finish#2".into(), e)),
+                        Err(_) => obs.lock().unwrap().notes.push("finish#2 pending 30 s".into()),
+                    }
+                    match tokio::time::timeout(Duration::from_secs(30), writer.write_all(b"z")).await {
+                        Ok(Ok(())) => obs.lock().unwrap().writer_oks.push("write#3".into()),
+                        Ok(Err(e)) => obs.lock().unwrap().writer_errors.push(("write#3".into(), e)),
+                        Err(_) => obs.lock().unwrap().notes.push("write#3 blocked".into()),
+                    }
                 }
             }
             Case::Finish { len } => {
@@ -423,7 +447,7 @@ pub fn execute(plan: &Plan, trace: bool) -> Exec {
                     }
                 }
             }
-            for need in ["write-after-stop", "stopped()", "finish-after-stop", "stopped()#2"] {
+            for need in ["write-after-stop", "stopped()", "finish-after-stop", "stopped()#2", "write-after-stopped()", "stopped()#3", "finish#2", "write#3"] {
                 if !o.writer_errors.iter().any(|(w, _)| w == need) {
                     ex.violation(
                         "C06/stop-not-reported",
@@ -513,7 +537,7 @@ pub fn def() -> PropertyDef {
     PropertyDef {
         id: "C06",
         scenarios: vec![Box::new(Typed(C06E2E { faulty: false })), Box::new(Typed(C06E2E { faulty: true }))],
-        rule: "Each run: real client and server, one stream in a generated role (client/server-opened x uni/bidi x direction), codes cycling through the boundaries of every varint length (0, 63, 64, 16383, 16384, 2^30-1, 2^30, 2^62-2, 2^62-1) and random 62-bit values, one of four histories: (reset) write 0..50 kB, optionally begin finishing, optionally let the network settle, reset(c) — the reader must see a prefix of the written bytes and then Reset(c), or, only if finishing began first, possibly everything and end-of-stream; (stop) the reader reads 0..3000 bytes and stops with c while the writer writes — every writer error must be Stopped(c), and once the stop has certainly arrived a further write, stopped(), finish() and stopped() again must all report Stopped(c); (finish) all bytes then end-of-stream, finish Ok, stopped() afterwards = Closed; (finish under partition, clean batch only) with the data or the acknowledgement direction blocked finish() must still be pending after 10 s simulated and complete Ok after the heal - also when the FIN had already been queued by an earlier finish() future that was dropped by a timeout, or by tokio's AsyncWriteExt::shutdown. Fault batch: loss / duplication / reordering. Non-trivial = the history ran to its observation point (and a fault fired in the fault batch); distinct = distinct plan hashes.",
+        rule: "Each run: real client and server, one stream in a generated role (client/server-opened x uni/bidi x direction), codes cycling through the boundaries of every varint length (0, 63, 64, 16383, 16384, 2^30-1, 2^30, 2^62-2, 2^62-1) and random 62-bit values, one of four histories: (reset) write 0..50 kB, optionally begin finishing, optionally let the network settle, reset(c) — the reader must see a prefix of the written bytes and then Reset(c), or, only if finishing began first, possibly everything and end-of-stream; (stop) the reader reads 0..3000 bytes and stops with c while the writer writes — every writer error must be Stopped(c), and once the stop has certainly arrived a further write, stopped(), finish(), stopped() again, another write and - a few round trips later - stopped(), finish() and write once more must all report Stopped(c); (finish) all bytes then end-of-stream, finish Ok, stopped() afterwards = Closed; (finish under partition, clean batch only) with the data or the acknowledgement direction blocked finish() must still be pending after 10 s simulated and complete Ok after the heal - also when the FIN had already been queued by an earlier finish() future that was dropped by a timeout, or by tokio's AsyncWriteExt::shutdown. Fault batch: loss / duplication / reordering. Non-trivial = the history ran to its observation point (and a fault fired in the fault batch); distinct = distinct plan hashes.",
         assumptions: vec![
             "after stop the model allows every outcome QUIC allows for writes racing the signal; only writes issued after network quiescence are required to fail",
             "quinn/rustls/tokio executed for real but trusted; current-thread runtime",
